@@ -121,9 +121,9 @@ def run(ctx):
             lambda: gen_replay(ctx, binp, "pkt", 4, range(4)),
             lambda: gen_replay(ctx, binp, "short", 1, [0]),
             lambda: gen_replay(ctx, binp, "route", 1, [0]),
-            lambda: tv(ctx, binp, "pkt", 6000, 6),
-            lambda: tv(ctx, binp, "mux", 150, 4),
-            lambda: race_run(ctx, 200),
+            lambda: tv(ctx, binp, "pkt", 10000, 8),
+            lambda: tv(ctx, binp, "mux", 250, 6),
+            lambda: race_run(ctx, 300),
         ], maxpar=6)
     ctx.assumptions += [
         "the accept policy under test is the default one (Server.MsgAcceptFunc unset); supported opcodes are QUERY and NOTIFY",
